@@ -20,6 +20,7 @@ import (
 	"github.com/lugu/qiloop/bus/services"
 	"github.com/lugu/qiloop/bus/session"
 	"github.com/lugu/qiloop/examples/pong"
+	"github.com/lugu/qiloop/type/object"
 	"pgregory.net/rapid"
 	"verif/harness/hio"
 	"verif/harness/netkit"
@@ -54,6 +55,9 @@ type Case struct {
 	// hears of them through the directory's signals. Once they are registered,
 	// requests for them succeed too (the harness allows the news fifteen seconds)
 	Late int `json:"late,omitempty"`
+	// Objects: every other request is for an object (Session.Object with a
+	// reference obtained beforehand through another session) instead of a proxy by name
+	Objects bool `json:"objects,omitempty"`
 }
 
 func genCase(t *rapid.T) Case {
@@ -72,6 +76,7 @@ func genCase(t *rapid.T) Case {
 	}
 	c.BigTag = rapid.SampledFrom([]int{0, 0, 2100, 5000, 70000}).Draw(t, "bigtag")
 	c.Churn = rapid.Bool().Draw(t, "churn")
+	c.Objects = rapid.Bool().Draw(t, "objects")
 	if rapid.IntRange(0, 2).Draw(t, "late") == 0 {
 		c.Late = rapid.IntRange(1, 6).Draw(t, "nlate")
 	}
@@ -164,6 +169,36 @@ func checkCase(c Case) error {
 		return vt.Violationf("C19:setup", "session: %v", err)
 	}
 	defer sess.Terminate()
+	// references to the objects, obtained through another session
+	refs := map[string]object.ObjectReference{}
+	if c.Objects {
+		scout, err := session.NewAuthSession(env.Addr, "u", "t")
+		if err != nil {
+			return vt.Violationf("C19:setup", "session: %v", err)
+		}
+		for k, n := range c.Servers {
+			for j := 0; j < n; j++ {
+				name := fmt.Sprintf("S%d_%d", k, j)
+				px, err := scout.Proxy(name, 1)
+				if err != nil {
+					scout.Terminate()
+					return vt.Violationf("C19:setup", "scout proxy of %s: %v", name, err)
+				}
+				refs[name] = bus.ObjectReference(px)
+			}
+		}
+		scout.Terminate()
+		// the scout's connections are gone before the session under test dials
+		for _, l := range listeners {
+			for deadline := time.Now().Add(5 * time.Second); l.Live() > 0 && time.Now().Before(deadline); {
+				time.Sleep(200 * time.Microsecond)
+			}
+		}
+	}
+	acceptedBefore := make([]int32, len(listeners))
+	for k, l := range listeners {
+		acceptedBefore[k] = atomic.LoadInt32(&l.Accepted)
+	}
 	// the session learns about the services through directory signals or its
 	// initial list: all services were registered before it was created.
 	start := make(chan struct{})
@@ -176,7 +211,13 @@ func checkCase(c Case) error {
 			<-start
 			for ri, r := range reqs {
 				name := fmt.Sprintf("S%d_%d", r[0], r[1])
-				px, err := sess.Proxy(name, 1)
+				var px bus.Proxy
+				var err error
+				if c.Objects && (gi+ri)%2 == 1 {
+					px, err = sess.Object(refs[name])
+				} else {
+					px, err = sess.Proxy(name, 1)
+				}
 				if err != nil {
 					cls := "C19:proxy-failed"
 					if strings.Contains(err.Error(), "consumer blocked") {
@@ -294,7 +335,7 @@ func checkCase(c Case) error {
 		for l.Live() > 1 && time.Now().Before(deadline) {
 			time.Sleep(200 * time.Microsecond)
 		}
-		if atomic.LoadInt32(&l.Accepted) >= 2 {
+		if atomic.LoadInt32(&l.Accepted)-acceptedBefore[k] >= 2 {
 			contended = true
 		}
 		if live := l.Live(); live > 1 {
@@ -308,6 +349,9 @@ func checkCase(c Case) error {
 	}
 	if c.Late > 0 {
 		labels = append(labels, "services-registered-meanwhile")
+	}
+	if c.Objects {
+		labels = append(labels, "objects-by-reference")
 	}
 	if contended {
 		labels = append(labels, "concurrent-dial-of-one-endpoint")
